@@ -27,7 +27,22 @@ type watchResult struct {
 
 var reGo = regexp.MustCompile(`(?m)^goroutine (\d+) \[([^\]]+)\]:`)
 
-func libGoroutinesAllBlocked() (bool, string) {
+// curGoroutineID parses the id of the calling goroutine from its stack header.
+func curGoroutineID() string {
+	var b [64]byte
+	n := runtime.Stack(b[:], false)
+	f := strings.Fields(string(b[:n]))
+	if len(f) >= 2 {
+		return f[1]
+	}
+	return ""
+}
+
+// libGoroutinesAllBlocked reports whether the watched call (goroutine gid) is
+// itself parked inside the library and every other goroutine inside the library
+// is parked as well.  The watched goroutine must be among them: if it is running
+// harness code (between two library calls of a script) nothing is stuck.
+func libGoroutinesAllBlocked(gid string) (bool, string) {
 	buf := make([]byte, 1<<20)
 	for {
 		n := runtime.Stack(buf, true)
@@ -39,6 +54,7 @@ func libGoroutinesAllBlocked() (bool, string) {
 	}
 	dump := string(buf)
 	lib := 0
+	watchedParked := false
 	var stuck []string
 	for _, blk := range strings.Split(dump, "\n\n") {
 		m := reGo.FindStringSubmatch(blk)
@@ -46,6 +62,9 @@ func libGoroutinesAllBlocked() (bool, string) {
 			continue
 		}
 		lib++
+		if m[1] == gid {
+			watchedParked = true // (state checked below: any non-parked state returns false)
+		}
 		st := m[2]
 		if k := strings.Index(st, ","); k >= 0 {
 			st = st[:k]
@@ -59,7 +78,7 @@ func libGoroutinesAllBlocked() (bool, string) {
 			return false, ""
 		}
 	}
-	return lib > 0, strings.Join(stuck, "\n\n")
+	return lib > 0 && watchedParked, strings.Join(stuck, "\n\n")
 }
 
 func (c *Ctx) Watch(what string, fn func()) watchResult {
@@ -67,7 +86,9 @@ func (c *Ctx) Watch(what string, fn func()) watchResult {
 	var res watchResult
 	var pmsg, pstack string
 	var runaway string
+	var gid atomic.Value
 	go func() {
+		gid.Store(curGoroutineID())
 		defer func() {
 			if r := recover(); r != nil {
 				if be, ok := r.(gen.BudgetExceeded); ok {
@@ -91,9 +112,10 @@ func (c *Ctx) Watch(what string, fn func()) watchResult {
 			time.Sleep(20 * time.Microsecond)
 		}
 		if spins == 400 || spins%2000 == 1999 {
-			if blocked, dump := libGoroutinesAllBlocked(); blocked && !fin.Load() {
+			id, _ := gid.Load().(string)
+			if blocked, dump := libGoroutinesAllBlocked(id); id != "" && blocked && !fin.Load() {
 				// confirm on a second snapshot (the call might have just completed)
-				if blocked2, _ := libGoroutinesAllBlocked(); blocked2 && !fin.Load() {
+				if blocked2, _ := libGoroutinesAllBlocked(id); blocked2 && !fin.Load() {
 					res.Deadlocked = true
 					res.Dump = dump
 					c.Count("deadlock_states_observed", 1)
